@@ -446,6 +446,18 @@ func runC11(c *Ctx) error {
 			}
 			setLine(s, "Sec-WebSocket-Accept", string(a))
 		}},
+		{"accept-padding-bits", func(s *c11script, r *http.Request) {
+			// the 27th character of the value carries four digest bits and two padding bits (zero): the same digest bits with
+			// other padding bits is a DIFFERENT header value that a lenient base64 decoder maps to the same 20 bytes
+			const alpha = "ABCDEFGHIJKLMNOPQRSTUVWXYZabcdefghijklmnopqrstuvwxyz0123456789+/"
+			a := []byte(hsOracleAccept(r.Header.Get("Sec-WebSocket-Key")))
+			if len(a) == 28 && a[27] == '=' {
+				if i := strings.IndexByte(alpha, a[26]); i >= 0 && i%4 == 0 {
+					a[26] = alpha[i+1+c.Rng.Intn(3)]
+				}
+			}
+			setLine(s, "Sec-WebSocket-Accept", string(a))
+		}},
 		{"accept-of-key-without-guid", func(s *c11script, r *http.Request) {
 			setLine(s, "Sec-WebSocket-Accept", r.Header.Get("Sec-WebSocket-Key"))
 		}},
